@@ -5,8 +5,8 @@ from harness.props.sched_common import Ledger, SchedProp, cap_vec, loc_class
 class C10(SchedProp):
     ID = "C10"
     PROPS_FILE = "Props/C10.v"
-    LEVEL_TEXT = ("History level (C10_capacity, C10_capacity_slots): for EVERY conformant history from the initial state and every prefix, on the domain of flat (not stacked) locations and one location per allocation, on every location with declared hardware the sum of the requirements of fireable/running jobs = ledger - measured residue, residue = 0 on cores/memory and >= 0 per mount point, and reserved <= ledger <= capacity on cores, memory and every mount point; on every slot location #fireable/running jobs <= slots. Conformant = requests evaluated only for jobs that are not fireable/running, RUNNING only to fireable/running jobs, FIREABLE only repeated, any other status any time in any order with repetitions, du <= reservation. C10_capacity_stacked: the same for locations that are chains of stacked levels (distinct names per chain, a requirement for every level, one location per allocation), for every level outer or inner (hardware: reserved <= ledger <= capacity; slots: C10_capacity_slots_stacked, #jobs through the level <= slots), provided every release is coherent with its reservation (per level the released hardware has the measures of the reserved one, du <= it) - the shared-inner findings are exactly incoherent histories. Event level: Theorems (Coq, closed) over a lock-granular model of DefaultScheduler (one retry-loop iteration of _process_target / one notify_status = one event), for every state, every chain of stacked levels and every requirement map: an evaluation allocates only locations that pass _is_valid at every stacked level in the state it started from; passing _is_valid on a level with declared hardware means ledger + requirement <= capacity on cores, memory and every mount point of the requirement (given a ledger within capacity), and the ledger after _allocate_job's reservation equals ledger + requirement and is again within capacity; on slot levels validity is exactly (#fireable/running jobs, plus the ROLLBACK rule) < slots. C10_shared_inner_refuted proves inside the model that the full property is false when a target asks for several locations stacked on one inner location (known finding). Every real run (histories of schedule/notify operations over 1..3 deployments x 1..3 locations, stacked wrappers, multi-location targets) is replayed event by event on the model (valid sets, allocation decisions, full state at each quiescent point).")
-    LEVEL_NOTE = ("Partial. The model takes as inputs (observed from the real run, not modelled) the resolved requirement map, the policy's choice, du results and re-bound hardware; asyncio (Condition, task order) is exercised under a seeded permuting loop, not modelled. No induction over whole histories is proved: the history-level statement is judged on every real run by an oracle written from the property text (ledger rebuilt from observations) and by replaying the run's event trace on the model. Trusted: Coq kernel + vm_compute, Sched/Model.v, Hardware/Model.v, the harness fakes. No axioms. The history theorems do not cover several locations per target nor incoherent releases (shared inner level in one candidate list), where the property is false (C10_shared_inner_refuted); coherence of bind_mount_point's outputs is an assumption on inputs, checked on real runs only by oracle and replay.")
+    LEVEL_TEXT = ("History level (C10_capacity, C10_capacity_slots): for EVERY conformant history from the initial state and every prefix, on the domain of flat (not stacked) locations and one location per allocation, on every location with declared hardware the sum of the requirements of fireable/running jobs = ledger - measured residue, residue = 0 on cores/memory and >= 0 per mount point, and reserved <= ledger <= capacity on cores, memory and every mount point; on every slot location #fireable/running jobs <= slots. Conformant = requests evaluated only for jobs that are not fireable/running, RUNNING only to fireable/running jobs, FIREABLE only repeated, any other status any time in any order with repetitions, du <= reservation. C10_capacity_stacked: the same for locations that are chains of stacked levels (distinct names per chain, a requirement for every level, one location per allocation), for every level outer or inner (hardware: reserved <= ledger <= capacity; slots: C10_capacity_slots_stacked, #jobs through the level <= slots), provided every release is coherent with its reservation (per level the released hardware has the measures of the reserved one, du <= it) - the shared-inner findings are exactly incoherent histories. Domain limits of these theorems, beyond one location per allocation: (a) hardware_locations is keyed by the bare location NAME, so two locations with the same name in different deployments share one ledger in the code; the theorems assume names identify locations (locs_names) and the generator never reuses a name; (b) conformance assumes du <= reservation per mount point: a job that wrote more than it reserved pushes the ledger above the capacity and the next _is_valid raises 'Storage cannot have negative size' out of schedule() on a single plain location (exercised by the generator, judged by the C12 oracle, listed as a known finding); (c) theorems are conditional on run = Ok. Event level: Theorems (Coq, closed) over a lock-granular model of DefaultScheduler (one retry-loop iteration of _process_target / one notify_status = one event), for every state, every chain of stacked levels and every requirement map: an evaluation allocates only locations that pass _is_valid at every stacked level in the state it started from; passing _is_valid on a level with declared hardware means ledger + requirement <= capacity on cores, memory and every mount point of the requirement (given a ledger within capacity), and the ledger after _allocate_job's reservation equals ledger + requirement and is again within capacity; on slot levels validity is exactly (#fireable/running jobs, plus the ROLLBACK rule) < slots. C10_shared_inner_refuted proves inside the model that the full property is false when a target asks for several locations stacked on one inner location (known finding). Every real run (histories of schedule/notify operations over 1..3 deployments x 1..3 locations, stacked wrappers, multi-location targets) is replayed event by event on the model (valid sets, allocation decisions, full state at each quiescent point).")
+    LEVEL_NOTE = ("Partial. The model takes as inputs (observed from the real run, not modelled) the resolved requirement map, the policy's choice, du results and re-bound hardware; asyncio (Condition, task order) is exercised under a seeded permuting loop, not modelled. The history-level theorems hold on stated domains only (flat or stacked chains, one location per allocation, coherent releases, conformant lifecycle); outside them, and for the link between model and code, the statement is judged on every real run by an oracle written from the property text (ledger rebuilt from observations) and by replaying the run's event trace on the model. The model's history ends when an operation raises (run = Err), whereas the real scheduler goes on half-updated (e.g. notify_status raising out of _free_resources: status changed, nothing released, no notify_all): such runs are judged by the oracle only. Trusted: Coq kernel + vm_compute, Sched/Model.v, Hardware/Model.v, the harness fakes. No axioms. The history theorems do not cover several locations per target nor incoherent releases (shared inner level in one candidate list), where the property is false (C10_shared_inner_refuted); coherence of bind_mount_point's outputs is an assumption on inputs, checked on real runs only by oracle and replay.")
 
     def oracle(self, case, obs):
         if "crash" in obs or "hang" in obs:
